@@ -9,6 +9,8 @@
    A program is described by
        ks    the kinds of the nested statements, outermost first (1 .. NestMaxDepth of them), out of
                "for3"    for v := 0; v < 3; v = v + 1 { ... }
+               "for0"    for v := 0; ; v = v + 1 { if v >= 3 { break }; ... }       (no condition: continue must run the post statement)
+               "forever" v = 0; for { v = v + 1; if v > 3 { break }; ... }          (the bare for; v is declared at the top of main)
                "rstr"    for v, w := range "abc" { ... }
                "rsl"     for v, w := range []int{5, 6, 7} { ... }
                "switch"  switch <sum of the visible loop variables> { case 0, 1: ...  default: println(..) }
@@ -26,13 +28,17 @@
 EXTENDS MiniGo, FiniteSets
 
 NestIters == 3
-NestLoops == {"for3", "rstr", "rsl"}
-NestAllKinds == {"for3", "rstr", "rsl", "switch", "select"}
+NestLoops == {"for3", "for0", "forever", "rstr", "rsl"}
+NestAllKinds == {"for3", "for0", "forever", "rstr", "rsl", "switch", "select"}
 \* the kinds a statement at level k may have in the programs of depth d: all of them up to depth full; deeper programs
-\* have one kind of range statement per level (over a slice or over a string, by the parity of level + seed)
+\* have one kind of range statement per level (over a slice or over a string, by the parity of level + seed), and those of
+\* depth 3 or more also only one kind of for statement per level (three clauses / without a condition / bare, by level + seed
+\* modulo 3: the three levels of a nest of depth 3 take the three kinds in rotation)
 NestKindsAt(k, d, full, seed) ==
   IF d <= full THEN NestAllKinds
-  ELSE {"for3", "switch", "select", IF (k + seed) % 2 = 1 THEN "rsl" ELSE "rstr"}
+  ELSE {"switch", "select", IF (k + seed) % 2 = 1 THEN "rsl" ELSE "rstr"}
+       \cup (IF d <= 2 THEN {"for3"} ELSE {CASE (k + seed) % 3 = 0 -> "for3" [] (k + seed) % 3 = 1 -> "for0" [] OTHER -> "forever"})
+       \cup (IF d <= 2 THEN {"for0", "forever"} ELSE {})
 NestKindSeqs(d, full, seed) ==
   {ks \in [1..d -> NestAllKinds] : \A k \in 1..d : ks[k] \in NestKindsAt(k, d, full, seed)}
 NestValid(s) == /\ (s.pos = 2 => s.lvl < Len(s.ks))
@@ -51,7 +57,7 @@ RECURSIVE NnVars(_, _, _), NnSum(_, _, _)
 \* the loop variables visible in the body of level k, outermost first (m runs from 1)
 NnVars(ks, k, m) ==
   IF m > k THEN <<>>
-  ELSE (CASE ks[m] = "for3" -> <<NnV(m)>> [] ks[m] \in {"rstr", "rsl"} -> <<NnV(m), NnV(3 + m)>> [] OTHER -> <<>>) \o NnVars(ks, k, m + 1)
+  ELSE (CASE ks[m] \in {"for3", "for0", "forever"} -> <<NnV(m)>> [] ks[m] \in {"rstr", "rsl"} -> <<NnV(m), NnV(3 + m)>> [] OTHER -> <<>>) \o NnVars(ks, k, m + 1)
 \* the sum of the index variables of the loops at levels m .. k (the constant 1 when there is none)
 NnSum(ks, k, m) ==
   IF m > k THEN NnC(1)
@@ -63,9 +69,14 @@ NnJump(s, k) ==
   IF s.cond THEN <<[s |-> "if", c |-> [e |-> "cmp", op |-> "==", a |-> NnSum(s.ks, k, 1), b |-> NnC(1)], a |-> <<j>>, b |-> <<>>]>> ELSE <<j>>
 NnAt(s, k, p) == IF s.lvl = k /\ s.pos = p THEN NnJump(s, k) ELSE <<>>
 RECURSIVE NnStmt(_, _)
+NnSetV(v, e) == [s |-> "set", lv |-> [l |-> "v", v |-> v], e |-> e]
+NnInc(v) == NnSetV(v, [e |-> "bin", op |-> "+", a |-> NnV(v), b |-> NnC(1)])
+NnBreakIf(op, v, n) == [s |-> "if", c |-> [e |-> "cmp", op |-> op, a |-> NnV(v), b |-> NnC(n)], a |-> <<[s |-> "break", label |-> ""]>>, b |-> <<>>]
+\* the statement of level k, preceded by what it needs ("forever": its counter starts again at 0)
+NnStmts(s, k) == (IF s.ks[k] = "forever" THEN <<NnSetV(k, NnC(0))>> ELSE <<>>) \o <<NnStmt(s, k)>>
 NnBody(s, k) ==
   NnAt(s, k, 0) \o <<NnPI(<<NnC(10 * k + 1)>> \o NnVars(s.ks, k, 1))>> \o NnAt(s, k, 1)
-  \o (IF k < Len(s.ks) THEN <<NnStmt(s, k + 1)>> \o NnAt(s, k, 2) ELSE <<>>)
+  \o (IF k < Len(s.ks) THEN NnStmts(s, k + 1) \o NnAt(s, k, 2) ELSE <<>>)
   \o <<NnPI(<<NnC(10 * k + 2)>> \o NnVars(s.ks, k, 1))>> \o NnAt(s, k, 3)
 NnStmt(s, k) ==
   LET kind == s.ks[k] IN
@@ -73,6 +84,10 @@ NnStmt(s, k) ==
                          cond |-> [e |-> "cmp", op |-> "<", a |-> NnV(k), b |-> NnC(NestIters)],
                          post |-> [s |-> "set", lv |-> [l |-> "v", v |-> k], e |-> [e |-> "bin", op |-> "+", a |-> NnV(k), b |-> NnC(1)]],
                          body |-> NnBody(s, k)]
+    [] kind = "for0" -> [s |-> "for", label |-> "", v |-> k, init |-> NnC(0), cond |-> [e |-> "nocond"], post |-> NnInc(k),
+                         body |-> <<NnBreakIf(">=", k, NestIters)>> \o NnBody(s, k)]
+    [] kind = "forever" -> [s |-> "for", label |-> "", v |-> 0, init |-> NnC(0), cond |-> [e |-> "nocond"], post |-> [s |-> "nop"],
+                            body |-> <<NnInc(k), NnBreakIf(">", k, NestIters)>> \o NnBody(s, k)]
     [] kind = "rstr" -> [s |-> "ranges", label |-> "", iv |-> k, rv |-> 3 + k, e |-> [e |-> "str", b |-> [j \in 1..NestIters |-> 96 + j]],
                          body |-> NnBody(s, k)]
     [] kind = "rsl" -> [s |-> "rangesl", label |-> "", iv |-> k, rv |-> 3 + k,
@@ -81,12 +96,16 @@ NnStmt(s, k) ==
                            clauses |-> <<[def |-> FALSE, vals |-> <<0, 1>>, body |-> NnBody(s, k), ft |-> FALSE],
                                          [def |-> TRUE, vals |-> <<>>, body |-> <<NnPI(<<NnC(10 * k + 8)>> \o NnVars(s.ks, k, 1))>>, ft |-> FALSE]>>]
     [] kind = "select" -> [s |-> "select", body |-> NnBody(s, k)]
-NestProg(s) == [nv |-> 6, funcs |-> <<>>, body |-> <<NnPI(<<NnC(98)>>), NnStmt(s, 1), NnPI(<<NnC(99)>>)>>]
+\* (the counters of the bare for statements are declared at the top of main)
+NnDecls(s) == [j \in 1..Len(SelectSeq([k \in 1..Len(s.ks) |-> k], LAMBDA k : s.ks[k] = "forever")) |->
+                 [s |-> "decl", v |-> SelectSeq([k \in 1..Len(s.ks) |-> k], LAMBDA k : s.ks[k] = "forever")[j], e |-> NnC(0)]]
+NestProg(s) == [nv |-> 6, funcs |-> <<>>, body |-> <<NnPI(<<NnC(98)>>)>> \o NnDecls(s) \o NnStmts(s, 1) \o <<NnPI(<<NnC(99)>>)>>]
 
 (* ---- what the judge's signature names (the root-cause-identifying part of the description):
    at = the kind of the statement the jump refers to by the specification (break: the statement it is written in;
    continue: the innermost loop around it), encl = the kind of the statement around that one ("none": there is none) *)
-NnName(kind) == CASE kind = "rstr" -> "range-string" [] kind = "rsl" -> "range-slice" [] OTHER -> kind
+NnName(kind) == CASE kind = "rstr" -> "range-string" [] kind = "rsl" -> "range-slice" [] kind = "for0" -> "for-without-condition"
+                  [] kind = "forever" -> "for-bare" [] OTHER -> kind
 NnTarget(s) == IF s.jump = "break" THEN s.lvl ELSE CHOOSE m \in 1..s.lvl : s.ks[m] \in NestLoops /\ \A q \in (m + 1)..s.lvl : s.ks[q] \notin NestLoops
 NestTag(s) == LET t == NnTarget(s) IN
               [jump |-> s.jump, at |-> NnName(s.ks[t]), encl |-> IF t > 1 THEN NnName(s.ks[t - 1]) ELSE "none"]
